@@ -1,5 +1,6 @@
 import CollectionsC.Properties.C10
 import CollectionsC.Proofs.PQueueCross
+import CollectionsC.Proofs.PQueueGeometric
 /-! # C20 (priority queue part): growth and capacity invariants -/
 namespace CC.Properties.C20PQueue
 open CC CC.Spec
@@ -70,6 +71,34 @@ theorem appends_realloc_log {cmp : Nat → Nat → Int} (tp : TotalPreorder cmp)
     (ht : q.triple = .conf) (hl : 0 < m.live) :
     (PQueue.pushAll cmp grow q xs m).2.nalloc - m.nalloc ≤ Nat.log2 (q.size + xs.length) + 1 :=
   PQueue.pushAll_realloc_log tp grow hd q xs m h ht hl
+
+/-- **every expansion factor > 1**: a growth law that multiplies the capacities below the final size
+by at least `1 + 1/k` (`c + c / k ≤ grow c`: `k = 2` for the factor 1.5, `k = 10` for 1.1), falling
+back to `capacity + 1` where the product makes no progress, costs at most
+`2k · (log2 (size + n) + 2)` successful allocator calls on `n` pushes — for every refusal schedule
+(port of `C20Array.appends_realloc_geometric`; stated for the configured triple, whose calls
+`nalloc` counts) -/
+theorem appends_realloc_geometric {cmp : Nat → Nat → Int} (tp : TotalPreorder cmp) (grow : Nat → Nat)
+    (k : Nat) (hk : 1 ≤ k) (q : PQueue) (xs : List Nat) (m : Mem) (h : PQueue.Inv' cmp q) (ht : q.triple = .conf)
+    (hl : 0 < m.live) (hd : ∀ c, c < q.size + xs.length → c + c / k ≤ grow c) :
+    (PQueue.pushAll cmp grow q xs m).2.nalloc - m.nalloc ≤ 2 * k * (Nat.log2 (q.size + xs.length) + 2) :=
+  PQueue.pushAll_realloc_geometric tp grow k hk q xs m h ht hl hd
+
+/-- the successive capacities are the iterates of `capStep grow` (the product, or `capacity + 1`),
+one per successful allocation, each growth step taken at a capacity below `size + n` — for every
+growth law and refusal schedule -/
+theorem appends_capacity_chain {cmp : Nat → Nat → Int} (tp : TotalPreorder cmp) (grow : Nat → Nat)
+    (q : PQueue) (xs : List Nat) (m : Mem) (h : PQueue.Inv' cmp q) (ht : q.triple = .conf) (hl : 0 < m.live) :
+    ∃ r, (PQueue.pushAll cmp grow q xs m).2.nalloc = m.nalloc + r ∧
+      (PQueue.pushAll cmp grow q xs m).1.capacity = PQueue.capIter (PQueue.capStep grow) r q.capacity ∧
+      (∀ j, j < r → PQueue.capIter (PQueue.capStep grow) j q.capacity < q.size + xs.length) := by
+  obtain ⟨r, h1, h2, h3, _⟩ := PQueue.pushAll_chain tp grow xs q m h ht hl
+  exact ⟨r, h1, h2, h3⟩
+
+/-! Non-vacuity of the hypothesis of `appends_realloc_geometric`: the factor 1.5 (`k = 2`) and the
+factor 1.1 (`k = 10`), as integer growth laws -/
+example : (∀ c, c + c / 2 ≤ (fun c => c * 3 / 2) c) ∧ (∀ c, c + c / 10 ≤ (fun c => c * 11 / 10) c) := by
+  constructor <;> intro c <;> simp only <;> omega
 
 /-! Non-vacuity of the whole hypothesis bundle of `appends_realloc_log`: a comparator that is a total
 preorder, the default growth law `c ↦ 2c`, a full heap satisfying the invariant on the configured
